@@ -159,6 +159,9 @@ pub fn render(c: &Circuit, st: &XmlStyle, r: &mut Prng) -> String {
         w.line(2, "<visualElement>");
         let mut entries: Vec<Vec<String>> = vec![];
         let name;
+        // an element that is no pin may also come without any <elementName> (it is still no pin;
+        // survivor of the operator-mutation sweep: dig.rs `return false` -> `return true`)
+        let nameless = matches!(&el, El::P(p) if matches!(p.kind, PinKind::Other(_))) && r.chance(1, 3);
         match el {
             El::P(p) => {
                 name = match &p.kind {
@@ -227,7 +230,17 @@ pub fn render(c: &Circuit, st: &XmlStyle, r: &mut Prng) -> String {
                 }
             }
         }
-        w.line(3, &format!("<elementName>{}</elementName>", escape(&name)));
+        if !nameless {
+            w.line(3, &format!("<elementName>{}</elementName>", escape(&name)));
+        } else if r.chance(1, 2) {
+            // ... or with an empty one (survivor: `.unwrap_or(false)` -> `.unwrap_or(true)`)
+            w.line(3, if r.chance(1, 2) { "<elementName/>" } else { "<elementName></elementName>" });
+        }
+        if st.noise_entries && r.chance(1, 4) {
+            // an entry without any child element in front of the real ones: skipped, not the end
+            // of the attribute list (survivor: `continue` -> `break` in the attribute scan)
+            entries.insert(0, vec![]);
+        }
         if st.shuffle_entries {
             r.shuffle(&mut entries);
         }
